@@ -1,0 +1,82 @@
+//go:build verif
+
+// Add-only exports for the verification harness (/verif, property C09).
+// Read-only observation of unexported StateDB / stateObject fields; nothing
+// here mutates the state (in particular nothing goes through getStateObject,
+// which would insert into stateObjects).
+package state
+
+import (
+	"sort"
+
+	"gitlab.com/aquachain/aquachain/common"
+	"gitlab.com/aquachain/aquachain/rlp"
+)
+
+// VerifObjHidden is the hidden part of a live stateObject.
+type VerifObjHidden struct {
+	Present      bool // in stateObjects
+	Armed        bool // onDirty != nil
+	Deleted      bool
+	Touched      bool
+	DirtyCode    bool
+	Suicided     bool
+	DirtyStorage map[common.Hash]common.Hash
+}
+
+// VerifHidden reports the hidden fields of the live object at addr (Present=false if none).
+func (s *StateDB) VerifHidden(addr common.Address) VerifObjHidden {
+	o := s.stateObjects[addr]
+	if o == nil {
+		return VerifObjHidden{}
+	}
+	ds := make(map[common.Hash]common.Hash, len(o.dirtyStorage))
+	for k, v := range o.dirtyStorage {
+		ds[k] = v
+	}
+	return VerifObjHidden{true, o.onDirty != nil, o.deleted, o.touched, o.dirtyCode, o.suicided, ds}
+}
+
+// VerifIsDirty reports membership in stateObjectsDirty.
+func (s *StateDB) VerifIsDirty(addr common.Address) bool {
+	_, ok := s.stateObjectsDirty[addr]
+	return ok
+}
+
+// VerifDirty returns stateObjectsDirty, sorted.
+func (s *StateDB) VerifDirty() []common.Address {
+	out := make([]common.Address, 0, len(s.stateObjectsDirty))
+	for a := range s.stateObjectsDirty {
+		out = append(out, a)
+	}
+	sort.Slice(out, func(i, j int) bool { return string(out[i][:]) < string(out[j][:]) })
+	return out
+}
+
+// VerifJournalLen returns len(journal).
+func (s *StateDB) VerifJournalLen() int { return len(s.journal) }
+
+// VerifRevisions returns validRevisions as (id, journalIndex) pairs.
+func (s *StateDB) VerifRevisions() [][2]int {
+	out := make([][2]int, len(s.validRevisions))
+	for i, r := range s.validRevisions {
+		out[i] = [2]int{r.id, r.journalIndex}
+	}
+	return out
+}
+
+// VerifLogSize returns logSize.
+func (s *StateDB) VerifLogSize() uint { return s.logSize }
+
+// VerifLeaf reads the account leaf straight from the account trie.
+func (s *StateDB) VerifLeaf(addr common.Address) (Account, bool) {
+	enc, err := s.trie.TryGet(addr[:])
+	if err != nil || len(enc) == 0 {
+		return Account{}, false
+	}
+	var data Account
+	if err := rlp.DecodeBytes(enc, &data); err != nil {
+		return Account{}, false
+	}
+	return data, true
+}
